@@ -24,8 +24,8 @@ const (
 )
 
 var c18Ctx3 = []string{"Add", "Sub", "Mul", "Quo", "QuoInteger", "Rem", "Pow", "Cmp"}
-var c18Ctx2 = []string{"Abs", "Neg", "Round", "Sqrt", "Cbrt", "Exp", "Ln", "Log10", "RoundToIntegralValue", "RoundToIntegralExact", "Ceil", "Floor", "Reduce"}
-var c18Read1 = []string{"Sign", "Size", "CondInfo", "String", "Text", "Sprintf", "Int64", "Float64", "Decompose", "MarshalText"}
+var c18Ctx2 = []string{"RounderRound", "Abs", "Neg", "Round", "Sqrt", "Cbrt", "Exp", "Ln", "Log10", "RoundToIntegralValue", "RoundToIntegralExact", "Ceil", "Floor", "Reduce"}
+var c18Read1 = []string{"Sign", "Size", "CondInfo", "ShouldAddOne", "String", "Text", "Sprintf", "Int64", "Float64", "Decompose", "MarshalText"}
 var c18Read2 = []string{"DCmp", "CmpTotal", "CoeffRead"}
 var c18Dec2 = []string{"DSet", "DNeg", "DAbs", "DReduce", "Compose", "NewWithBigInt"}
 var c18DecSet = []string{"SetInt64", "SetFinite", "SetFloat64", "DSetString", "UnmarshalText", "Scan", "NullScan"}
